@@ -2601,4 +2601,353 @@ Proof.
   - destruct HS1 as (_&_&_&M1), HS2 as (_&_&_&M2). rewrite M1, M2. apply multiplicity_perm, HP.
 Qed.
 
+(* ======================================================================== *)
+(* Part P : the same lemmas relative to a set V of nodes on which validity is demanded
+   (used by restore_ind, whose loop passes through states in which the not yet re-created
+   ancestors still carry caches for the OLD sliced set) *)
+Section VV.
+Variable V : node -> Prop.
+Definition InvSV (s : tstate) : Prop :=
+  children_ok (children s) /\
+  NoDup (nkeys (info s)) /\
+  (forall nd i, nget nd (info s) = Some i -> good_node nd /\ (V nd -> node_inv (children s) (sliced s) nd i)) /\
+  mult s = multiplicity n (sliced s).
+(* V is closed under children and under the leaves of its members *)
+Definition Vclosed (ch : list (node * (node * node))) : Prop :=
+  (forall p l r, nget p ch = Some (l, r) -> V p -> V l /\ V r) /\ (forall nd k, V nd -> In k nd -> V [k]).
+
+Lemma InvSV_same s s' : same_cost_fields s s' -> InvSV s -> InvSV s'.
+Proof.
+  intros (E1&E2&E3&E4&E5&E6&E7&E8&E9&E10&E11) (H1&H2&H3&H5).
+  unfold InvSV in *. rewrite E1, E2, E3, E4. exact (conj H1 (conj H2 (conj H3 H5))).
+Qed.
+Lemma InvSV_upd nd f s : InvSV s ->
+  (forall i, nget nd (info s) = Some i -> V nd -> node_inv (children s) (sliced s) nd (f i)) ->
+  InvSV (upd_info nd f s).
+Proof.
+  intros HI Hf. destruct (nget nd (info s)) as [i|] eqn:E.
+  2:{ unfold upd_info. rewrite E. apply (InvSV_same s), HI. apply same_set_err. }
+  destruct HI as (H1&H2&H3&H5). unfold InvSV, upd_info. rewrite E. cbn [set_info children info sliced mult].
+  split; [exact H1|]. split; [rewrite nkeys_nset_in by congruence; exact H2|]. split; [|exact H5].
+  intros nd' i' Hg. destruct (node_eq_dec nd' nd) as [->|Hn].
+  - rewrite nget_nset_same in Hg. injection Hg as <-. split; [apply (H3 nd i E)|intros HV; apply (Hf i eq_refl HV)].
+  - rewrite nget_nset_other in Hg by exact Hn. apply H3, Hg.
+Qed.
+Lemma InvCV_upd nd f s : InvSV s ->
+  (forall i, nget nd (info s) = Some i -> (V nd -> node_inv (children s) (sliced s) nd (f i)) /\ mono i (f i)) ->
+  InvSV (upd_info nd f s) /\ Ext s (upd_info nd f s).
+Proof.
+  intros HI Hf. split; [apply InvSV_upd; [exact HI|intros i Hi HV; apply (proj1 (Hf i Hi) HV)]|apply Ext_upd; intros i Hi; apply (Hf i Hi)].
+Qed.
+Lemma cache_legsV s s1 nd v : InvSV s1 -> Ext s s1 -> (V nd -> legs_ok n (sliced s) nd v) ->
+  InvSV (upd_info nd (w_legs (Some v)) s1) /\ Ext s (upd_info nd (w_legs (Some v)) s1).
+Proof.
+  intros HI HE Hv. destruct (InvCV_upd nd (w_legs (Some v)) s1 HI) as [H1 H2].
+  - intros i Hi. destruct HI as (_&_&H3&_). destruct (H3 nd i Hi) as [_ Hn]. split; [|split; cbn; auto].
+    intros HV. apply node_inv_w_legs; [exact (Hn HV)|]. destruct HE as (_&E2&_). rewrite E2. exact (Hv HV).
+  - split; [exact H1|eapply Ext_trans; eassumption].
+Qed.
+Lemma cache_involvedV s s1 nd v : InvSV s1 -> Ext s s1 -> (V nd -> inv_spec (children s) (sliced s) nd v) ->
+  InvSV (upd_info nd (w_involved (Some v)) s1) /\ Ext s (upd_info nd (w_involved (Some v)) s1).
+Proof.
+  intros HI HE Hv. destruct (InvCV_upd nd (w_involved (Some v)) s1 HI) as [H1 H2].
+  - intros i Hi. destruct HI as (_&_&H3&_). destruct (H3 nd i Hi) as [_ Hn]. split; [|split; cbn; auto].
+    intros HV. apply node_inv_w_involved; [exact (Hn HV)|]. destruct HE as (E1&E2&_). rewrite E1, E2. exact (Hv HV).
+  - split; [exact H1|eapply Ext_trans; eassumption].
+Qed.
+Definition PlV (f : nat) : Prop := forall s nd, InvSV s -> Vclosed (children s) -> V nd -> good_node nd -> 2 * length nd <= f ->
+  InvSV (fst (get_legs n f s nd)) /\ Ext s (fst (get_legs n f s nd)) /\
+  legs_ok n (sliced s) nd (snd (get_legs n f s nd)).
+Definition PiV (f : nat) : Prop := forall s nd, InvSV s -> Vclosed (children s) -> V nd -> good_node nd -> 2 * length nd <= f + 1 ->
+  InvSV (fst (get_involved n f s nd)) /\ Ext s (fst (get_involved n f s nd)) /\
+  match snd (get_involved n f s nd) with
+  | Some inv => inv_spec (children s) (sliced s) nd inv
+  | None => nget nd (children s) = None /\ length nd <> 1
+  end.
+Lemma fallback_foldV f' sl0 : PlV f' -> 2 <= f' -> forall xs s2 acc,
+  InvSV s2 -> Vclosed (children s2) -> (forall k, In k xs -> V [k]) -> sliced s2 = sl0 -> (forall k, In k xs -> k < N) ->
+  let r := fold_left (fun acc i => let '(sa, l) := get_legs n f' (fst acc) [i] in (sa, snd acc ++ [l])) xs (s2, acc) in
+  InvSV (fst r) /\ Ext s2 (fst r) /\
+  exists ls', snd r = acc ++ ls' /\ Forall2 (fun i lg => slegs_ok n sl0 [i] lg) xs ls'.
+Proof.
+  intros HPl Hf. induction xs as [|x xs IH]; intros s2 acc HI HC HVx Hsl Hb; cbn [fold_left].
+  - cbn. split; [exact HI|]. split; [apply Ext_refl|]. exists []. rewrite app_nil_r. split; [reflexivity|constructor].
+  - cbn [fst snd].
+    assert (Gx : good_node [x]).
+    { split; [|discriminate]. split; [repeat constructor; cbn; tauto|]. intros k [<-|[]]. apply Hb. left. reflexivity. }
+    destruct (HPl s2 [x] HI HC (HVx x (or_introl eq_refl)) Gx) as (A & B & C); [cbn; lia|].
+    destruct (get_legs n f' s2 [x]) as [sa l] eqn:El. cbn [fst snd] in A, B, C.
+    assert (Esl : sliced sa = sl0) by (destruct B as (_&E2&_); congruence).
+    assert (HCa : Vclosed (children sa)) by (destruct B as (Ech&_); rewrite Ech; exact HC).
+    destruct (IH sa (acc ++ [l]) A HCa) as (A' & B' & ls' & E' & F').
+    { intros k Hk. apply HVx. right. exact Hk. }
+    { exact Esl. }
+    { intros k Hk. apply Hb. right. exact Hk. }
+    split; [exact A'|]. split; [eapply Ext_trans; eassumption|].
+    exists (l :: ls'). split; [rewrite E', <- app_assoc; reflexivity|].
+    constructor; [|exact F']. rewrite Hsl in C. apply legs_ok_nonroot in C; [exact C|cbn; lia].
+Qed.
+Lemma getters_stepV f' : PlV f' /\ PiV f' -> PlV (S f') /\ PiV (S f').
+Proof.
+  intros [HPl HPi]. split.
+  - (* get_legs *)
+    intros s nd HI HC HV HG Hf. rewrite get_legs_S.
+    destruct (rd i_legs s nd) as [lg|] eqn:Er.
+    { cbn [fst snd]. split; [exact HI|]. split; [apply Ext_refl|].
+      destruct (rd_Some _ _ _ _ Er) as (i & Hi & Hl). destruct HI as (_&_&H3&_).
+      destruct (H3 nd i Hi) as [_ Hn]. destruct (Hn HV) as (A&_). apply A, Hl. }
+    pose proof (good_len nd HG) as Hlen.
+    destruct (Nat.eqb_spec (length nd) 1) as [E1|E1].
+    { (* leaf *)
+      rewrite (len1 nd E1) in *. set (k := hd 0 nd) in *.
+      assert (Hk : k < N) by (apply good_leaf, HG).
+      unfold compute_leaf_legs.
+      set (s' := match leaf_preproc n (sliced s) k with Some tk => set_preproc (pset k (canon_eq1 tk) (preproc s)) s | None => s end).
+      assert (Hs' : same_cost_fields s s').
+      { unfold s'. destruct (leaf_preproc n (sliced s) k); [apply same_set_preproc|unfold same_cost_fields; repeat split; reflexivity]. }
+      assert (Ec : cores s' = cores s) by (unfold s'; destruct (leaf_preproc n (sliced s) k); reflexivity).
+      cbn [fst snd].
+      destruct (cache_legsV s s' [k] (leaf_legs n (sliced s) k)) as [A B];
+        [apply (InvSV_same s), HI; exact Hs'|apply Ext_same; assumption|intros _; apply legs_ok_leaf, Hk|].
+      split; [exact A|]. split; [exact B|apply legs_ok_leaf, Hk]. }
+    destruct (Nat.eqb_spec (length nd) N) as [EN|EN].
+    { cbn [fst snd]. destruct (cache_legsV s s nd (root_legs n (sliced s)) HI (Ext_refl s) (fun _ => legs_ok_root _ _ EN)) as [A B].
+      split; [exact A|]. split; [exact B|apply legs_ok_root, EN]. }
+    destruct (HPi s nd HI HC HV HG) as (A & B & C); [lia|].
+    destruct (get_involved n f' s nd) as [s2 [inv|]] eqn:Ei; cbn [fst snd] in A, B, C.
+    + (* involved available *)
+      cbn [fst snd].
+      assert (Hv : legs_ok n (sliced s) nd (filter (fun kv => Nat.ltb (snd kv) (appear n (fst kv))) inv)).
+      { destruct C as [[C _]|(l & r & Hch & Hinv)]; [contradiction|].
+        destruct HI as ((_&Hc)&_). destruct (Hc nd l r Hch) as (_&_&HR&HP).
+        apply legs_ok_nonroot; [exact EN|]. apply (slegs_ok_perm n _ (l ++ r)); [apply Permutation_sym, HP|].
+        apply filter_inv_ok; assumption. }
+      destruct (cache_legsV s s2 nd _ A B (fun _ => Hv)) as [A' B']. split; [exact A'|]. split; [exact B'|exact Hv].
+    + (* the fallback over the leaves *)
+      assert (Hf' : 2 <= f') by lia.
+      destruct (fallback_foldV f' (sliced s) HPl Hf' nd s2 [] A) as (A' & B' & ls' & E' & F').
+      { destruct B as (Ech&_). rewrite Ech. exact HC. }
+      { intros k Hk. apply (proj2 HC nd k HV Hk). }
+      { destruct B as (_&E2&_). exact E2. }
+      { intros k Hk. apply HG, Hk. }
+      cbn zeta in A', B', E'.
+      destruct (fold_left _ nd (s2, [])) as [s3 ls] eqn:Ef. cbn [fst snd] in A', B', E'. cbn [fst snd].
+      cbn [app] in E'. subst ls.
+      assert (Hv : legs_ok n (sliced s) nd (filter (fun kv => Nat.ltb (snd kv) (appear n (fst kv))) (legs_union ls'))).
+      { apply leaves_union_ok; [apply HG|apply HG|exact EN|exact F']. }
+      destruct (cache_legsV s s3 nd _ A' (Ext_trans _ _ _ B B') (fun _ => Hv)) as [A'' B''].
+      split; [exact A''|]. split; [exact B''|exact Hv].
+  - (* get_involved *)
+    intros s nd HI HC HV HG Hf. rewrite get_involved_S.
+    destruct (rd i_involved s nd) as [inv|] eqn:Er.
+    { cbn [fst snd]. split; [exact HI|]. split; [apply Ext_refl|].
+      destruct (rd_Some _ _ _ _ Er) as (i & Hi & Hl). destruct HI as (_&_&H3&_).
+      destruct (H3 nd i Hi) as [_ Hn]. destruct (Hn HV) as (_&A&_). apply A, Hl. }
+    destruct (Nat.eqb_spec (length nd) 1) as [E1|E1].
+    { cbn [fst snd]. assert (Hv : inv_spec (children s) (sliced s) nd []) by (left; split; [exact E1|reflexivity]).
+      destruct (cache_involvedV s s nd [] HI (Ext_refl s) (fun _ => Hv)) as [A B]. split; [exact A|]. split; [exact B|exact Hv]. }
+    destruct (nget nd (children s)) as [[l r]|] eqn:Ech.
+    2:{ cbn [fst snd]. split; [exact HI|]. split; [apply Ext_refl|]. split; [reflexivity|exact E1]. }
+    assert (Hc := HI). destruct Hc as ((_&Hc)&_). destruct (Hc nd l r Ech) as (Gl & Gr & HR & HP).
+    pose proof (Permutation_length HP) as HL. rewrite app_length in HL.
+    pose proof (good_len l Gl) as Ll. pose proof (good_len r Gr) as Lr. pose proof (good_len nd HG) as Lnd.
+    destruct (proj1 HC nd l r Ech HV) as [Vl Vr].
+    destruct (HPl s l HI HC Vl Gl) as (A1 & B1 & C1); [lia|].
+    destruct (get_legs n f' s l) as [s1 ll] eqn:El. cbn [fst snd] in A1, B1, C1.
+    assert (HC1 : Vclosed (children s1)) by (destruct B1 as (Ech1&_); rewrite Ech1; exact HC).
+    destruct (HPl s1 r A1 HC1 Vr Gr) as (A2 & B2 & C2); [lia|].
+    destruct (get_legs n f' s1 r) as [s2 lr] eqn:Elr. cbn [fst snd] in A2, B2, C2. cbn [fst snd].
+    assert (Esl1 : sliced s1 = sliced s) by apply B1. rewrite Esl1 in C2.
+    apply legs_ok_nonroot in C1; [|lia]. apply legs_ok_nonroot in C2; [|lia].
+    assert (Hv : inv_spec (children s) (sliced s) nd (legs_union2 ll lr)).
+    { right. exists l, r. split; [exact Ech|apply union2_inv_ok; assumption]. }
+    destruct (cache_involvedV s s2 nd _ A2 (Ext_trans _ _ _ B1 B2) (fun _ => Hv)) as [A B].
+    split; [exact A|]. split; [exact B|exact Hv].
+Qed.
+Lemma getters_allV f : PlV f /\ PiV f.
+Proof.
+  induction f as [|f IH]; [|apply getters_stepV, IH]. split.
+  - intros s nd _ _ _ HG Hf. pose proof (good_len nd HG). lia.
+  - intros s nd _ _ _ HG Hf. pose proof (good_len nd HG). lia.
+Qed.
+Lemma g_legs_invV s nd : InvSV s -> Vclosed (children s) -> V nd -> good_node nd ->
+  InvSV (fst (g_legs n s nd)) /\ Ext s (fst (g_legs n s nd)) /\ legs_ok n (sliced s) nd (snd (g_legs n s nd)).
+Proof. intros HI HC HV HG. apply (proj1 (getters_allV (fuel n s))); [exact HI|exact HC|exact HV|exact HG|apply fuel_enough, HG]. Qed.
+
+Lemma g_involved_invV s nd : InvSV s -> Vclosed (children s) -> V nd -> good_node nd ->
+  InvSV (fst (g_involved n s nd)) /\ Ext s (fst (g_involved n s nd)) /\
+  (length nd = 1 \/ nget nd (children s) <> None -> inv_spec (children s) (sliced s) nd (snd (g_involved n s nd))).
+Proof.
+  intros HI HC HV HG. unfold g_involved.
+  destruct (proj2 (getters_allV (fuel n s)) s nd HI HC HV HG) as (A & B & C); [pose proof (fuel_enough s nd HG); lia|].
+  destruct (get_involved n (fuel n s) s nd) as [s' [v|]]; cbn [fst snd] in *.
+  - split; [exact A|]. split; [exact B|]. intros _. exact C.
+  - split; [apply (InvSV_same s'), A; apply same_set_err|].
+    split; [eapply Ext_trans; [exact B|apply Ext_same; [apply same_set_err|reflexivity]]|].
+    intros [H|H]; [destruct C; contradiction|destruct C; contradiction].
+Qed.
+Lemma g_size_invV s nd : InvSV s -> Vclosed (children s) -> V nd -> good_node nd ->
+  InvSV (fst (g_size n s nd)) /\ Ext s (fst (g_size n s nd)) /\ size_spec (sliced s) nd (snd (g_size n s nd))
+  /\ rd i_size (fst (g_size n s nd)) nd = Some (snd (g_size n s nd)) \/ nget nd (info s) = None.
+Proof.
+  intros HI HC HV HG. destruct (nget nd (info s)) as [i0|] eqn:Ei0; [left|right; reflexivity].
+  unfold g_size. destruct (rd i_size s nd) as [z|] eqn:Er.
+  { cbn [fst snd]. split; [exact HI|]. split; [apply Ext_refl|]. split; [|exact Er].
+    destruct (rd_Some _ _ _ _ Er) as (i & Hi & Hz). destruct HI as (_&_&H3&_).
+    destruct (H3 nd i Hi) as [_ Hn]. destruct (Hn HV) as (_&_&A&_). apply A, Hz. }
+  destruct (g_legs_invV s nd HI HC HV HG) as (A & B & C).
+  destruct (g_legs n s nd) as [s1 l]. cbn [fst snd] in *.
+  assert (Esl : sliced s1 = sliced s) by apply B.
+  destruct (InvCV_upd nd (w_size (Some (size_of (szd n) (lkeys l)))) s1 A) as [A' B'].
+  { intros i Hi. destruct A as (_&_&H3&_). destruct (H3 nd i Hi) as [_ Hn].
+    destruct (node_inv_w_size' _ _ nd i l (Hn HV)) as [Q1 Q2]; [rewrite Esl; exact C|]. split; [intros _; exact Q1|exact Q2]. }
+  split; [exact A'|]. split; [eapply Ext_trans; eassumption|]. split.
+  - intros lg Hlg. apply (legs_ok_size_unique n (sliced s) _ nd); assumption.
+  - assert (Hk : nget nd (info s1) <> None).
+    { apply nget_in_keys. destruct B as (_&_&_&_&_&_&_&_&_&_&_&Ek&_). unfold nkeys in *. rewrite Ek.
+      apply nget_in_keys. congruence. }
+    destruct (nget nd (info s1)) as [i1|] eqn:Ei1; [|congruence].
+    rewrite (rd_upd_same i_size nd _ s1 i1 Ei1). reflexivity.
+Qed.
+Lemma g_flops_invV s nd : InvSV s -> Vclosed (children s) -> V nd -> good_node nd -> flops_pre s nd ->
+  InvSV (fst (g_flops n s nd)) /\ Ext s (fst (g_flops n s nd)) /\
+  (nget nd (info s) <> None -> rd i_flops (fst (g_flops n s nd)) nd = Some (snd (g_flops n s nd))).
+Proof.
+  intros HI HC HV HG Hpre. unfold g_flops. destruct (rd i_flops s nd) as [z|] eqn:Er.
+  { cbn [fst snd]. split; [exact HI|]. split; [apply Ext_refl|]. intros _. exact Er. }
+  destruct (Nat.eqb_spec (length nd) 1) as [E1|E1].
+  { cbn [fst snd]. destruct (InvCV_upd nd (w_flops (Some 0%Z)) s HI) as [A B].
+    { intros i Hi. assert (HI' := HI). destruct HI' as (Hc&_&H3&_). destruct (H3 nd i Hi) as [_ Hn].
+      destruct (node_inv_w_flops0 _ _ nd i Hc (Hn HV) E1) as [Q1 Q2]. split; [intros _; exact Q1|exact Q2]. }
+    split; [exact A|]. split; [exact B|]. intros Hk. destruct (nget nd (info s)) as [i|] eqn:Ei; [|congruence].
+    rewrite (rd_upd_same i_flops nd _ s i Ei). reflexivity. }
+  assert (Hch : nget nd (children s) <> None) by (destruct Hpre as [H|[H|H]]; [contradiction|exact H|congruence]).
+  destruct (g_involved_invV s nd HI HC HV HG) as (A & B & C).
+  destruct (g_involved n s nd) as [s1 inv]. cbn [fst snd] in *.
+  destruct (C (or_intror Hch)) as [[E _]|(l & r & Ech & Hinv)]; [contradiction|].
+  assert (Ech1 : children s1 = children s) by apply B. assert (Esl1 : sliced s1 = sliced s) by apply B.
+  destruct (InvCV_upd nd (w_flops (Some (size_of (szd n) (lkeys inv)))) s1 A) as [A' B'].
+  { intros i Hi. assert (A0 := A). destruct A0 as (Hc&_&H3&_). destruct (H3 nd i Hi) as [_ Hn].
+    destruct (node_inv_w_flops' _ _ nd i l r inv (Hn HV) Hc) as [Q1 Q2]; [rewrite Ech1; exact Ech|rewrite Esl1; exact Hinv|].
+    split; [intros _; exact Q1|exact Q2]. }
+  split; [exact A'|]. split; [eapply Ext_trans; eassumption|].
+  intros Hk. assert (Hk1 : nget nd (info s1) <> None).
+  { apply nget_in_keys. destruct B as (_&_&_&_&_&_&_&_&_&_&_&Ek&_). unfold nkeys in *. rewrite Ek. apply nget_in_keys, Hk. }
+  destruct (nget nd (info s1)) as [i1|] eqn:Ei1; [|congruence].
+  rewrite (rd_upd_same i_flops nd _ s1 i1 Ei1). reflexivity.
+Qed.
+Lemma InvSV_children_del nd s i' :
+  InvSV s -> (length nd = N -> i' = Some noinfo) ->
+  forall s', children s' = ndel nd (children s) -> sliced s' = sliced s -> mult s' = mult s ->
+  info s' = match i' with Some x => nset nd x (info s) | None => ndel nd (info s) end ->
+  nget nd (info s) <> None -> (i' = None \/ i' = Some noinfo) ->
+  InvSV s'.
+Proof.
+  intros (H1&H2&H3&H5) _ s' Ech Esl Em Ei Hk Hi'. destruct H1 as [Hnd Hc].
+  unfold InvSV. rewrite Ech, Esl, Em. split; [|split; [|split; [|exact H5]]].
+  - split; [apply NoDup_nkeys_ndel, Hnd|]. intros p l r Hp. destruct (node_eq_dec p nd) as [->|Hn].
+    + rewrite nget_ndel_same in Hp by exact Hnd. discriminate.
+    + rewrite nget_ndel_other in Hp by exact Hn. apply Hc, Hp.
+  - rewrite Ei. destruct i'; [apply NoDup_nkeys_nset, H2|apply NoDup_nkeys_ndel, H2].
+  - intros nd' j Hj. rewrite Ei in Hj.
+    assert (Hcase : (nd' = nd /\ j = noinfo) \/ (nd' <> nd /\ nget nd' (info s) = Some j)).
+    { destruct (node_eq_dec nd' nd) as [->|Hn].
+      - destruct Hi' as [->| ->].
+        + rewrite nget_ndel_same in Hj by exact H2. discriminate.
+        + rewrite nget_nset_same in Hj. injection Hj as <-. left. auto.
+      - right. split; [exact Hn|]. destruct i'; [rewrite nget_nset_other in Hj by exact Hn|rewrite nget_ndel_other in Hj by exact Hn]; exact Hj. }
+    destruct Hcase as [[-> ->]|[Hn Hj']].
+    + destruct (nget nd (info s)) as [i0|] eqn:E0; [|congruence]. split; [apply (H3 nd i0 E0)|intros _; apply node_inv_noinfo].
+    + destruct (H3 nd' j Hj') as [G Hv]. split; [exact G|]. intros HV. destruct (Hv HV) as (A&B&C&D). unfold node_inv. repeat split; auto.
+      * intros inv Hinv. destruct (B inv Hinv) as [Hl|(l & r & E & Hok)]; [left; exact Hl|right].
+        exists l, r. split; [rewrite nget_ndel_other by exact Hn; exact E|exact Hok].
+      * intros z Hz. destruct (D z Hz) as [Hl|(l & r & E & Hok)]; [left; exact Hl|right].
+        exists l, r. split; [rewrite nget_ndel_other by exact Hn; exact E|exact Hok].
+Qed.
+Lemma InvSV_struct s s' : same_struct s s' -> InvSV s -> InvSV s'.
+Proof. intros (E1&E2&E3&E4) H. unfold InvSV in *. rewrite E1, E2, E3, E4. exact H. Qed.
+
+Lemma track_flopsV K p s : InvSV s -> Vclosed (children s) -> V p -> good_node p -> nget p (children s) <> None -> nget p (info s) <> None ->
+  tot_flops K s ->
+  let s1 := (if trk_flops s then let '(sa, fl) := g_flops n s p in set_flops (flops_ sa + fl)%Z sa else s) in
+  InvSV s1 /\ ExtI s s1 /\ write_ s1 = write_ s /\ sizes_ s1 = sizes_ s /\ sizes_max s1 = sizes_max s /\
+  tot_flops (K ++ [p]) s1.
+Proof.
+  intros HS HC HV HG Hch Hk T. cbn zeta. destruct (trk_flops s) eqn:Ts.
+  - destruct (g_flops_invV s p HS HC HV HG) as (A & B & C); [right; left; exact Hch|].
+    specialize (C Hk). destruct (g_flops n s p) as [sa fl]. cbn [fst snd] in *.
+    split; [apply (InvSV_struct sa); [unfold same_struct; repeat split; reflexivity|exact A]|].
+    split; [apply (ExtI_trans _ sa); [apply Ext_ExtI, B|unfold ExtI; repeat split; auto]|].
+    assert (B' := B). destruct B' as (_&_&_&B4&_&_&B7&B8&B9&B10&_).
+    split; [exact B8|]. split; [exact B9|]. split; [exact B10|].
+    pose proof (tot_flops_Ext K s sa B T) as T'. unfold tot_flops in *. cbn. intros _.
+    rewrite B4 in T'. destruct (T' Ts) as [Ta Tb].
+    change (cflops (set_flops (flops_ sa + fl)%Z sa)) with (cflops sa).
+    change (rd i_flops (set_flops (flops_ sa + fl)%Z sa)) with (rd i_flops sa). split.
+    + assert (Ecf : cflops sa p = fl) by (unfold cflops; rewrite C; reflexivity).
+      rewrite map_app, zsum_app, Ta. cbn [map]. rewrite zsum_cons, Ecf. change (zsum []) with 0%Z. lia.
+    + intros q Hq. apply in_app_iff in Hq. destruct Hq as [Hq|[<-|[]]]; [apply Tb, Hq|rewrite C; discriminate].
+  - split; [exact HS|]. split; [unfold ExtI; repeat split; auto|]. repeat split; try reflexivity; try congruence; try discriminate.
+Qed.
+Lemma track_writeV K p s : InvSV s -> Vclosed (children s) -> V p -> good_node p -> nget p (info s) <> None -> tot_write K s ->
+  let s1 := (if trk_write s then let '(sa, sz) := g_size n s p in set_write (write_ sa + sz)%Z sa else s) in
+  InvSV s1 /\ ExtI s s1 /\ flops_ s1 = flops_ s /\ sizes_ s1 = sizes_ s /\ sizes_max s1 = sizes_max s /\
+  tot_write (K ++ [p]) s1.
+Proof.
+  intros HS HC HV HG Hk T. cbn zeta. destruct (trk_write s) eqn:Ts.
+  - destruct (g_size_invV s p HS HC HV HG) as [(A & B & _ & C)|C]; [|congruence].
+    destruct (g_size n s p) as [sa sz]. cbn [fst snd] in *.
+    split; [apply (InvSV_struct sa); [unfold same_struct; repeat split; reflexivity|exact A]|].
+    split; [apply (ExtI_trans _ sa); [apply Ext_ExtI, B|unfold ExtI; repeat split; auto]|].
+    assert (B' := B). destruct B' as (_&_&_&_&B5&_&B7&B8&B9&B10&_).
+    split; [exact B7|]. split; [exact B9|]. split; [exact B10|].
+    pose proof (tot_write_Ext K s sa B T) as T'. unfold tot_write in *. cbn. intros _.
+    rewrite B5 in T'. destruct (T' Ts) as [Ta Tb].
+    change (csize (set_write (write_ sa + sz)%Z sa)) with (csize sa).
+    change (rd i_size (set_write (write_ sa + sz)%Z sa)) with (rd i_size sa). split.
+    + assert (Ecf : csize sa p = sz) by (unfold csize; rewrite C; reflexivity).
+      rewrite map_app, zsum_app, Ta. cbn [map]. rewrite zsum_cons, Ecf. change (zsum []) with 0%Z. lia.
+    + intros q Hq. apply in_app_iff in Hq. destruct Hq as [Hq|[<-|[]]]; [apply Tb, Hq|rewrite C; discriminate].
+  - split; [exact HS|]. split; [unfold ExtI; repeat split; auto|]. repeat split; try reflexivity; try congruence; try discriminate.
+Qed.
+Lemma track_sizeV K p s : InvSV s -> Vclosed (children s) -> V p -> good_node p -> nget p (info s) <> None -> tot_size K s ->
+  let s1 := (if trk_size s then let '(sa, sz) := g_size n s p in set_sizes (mc_add sz (sizes_mc sa)) sa else s) in
+  InvSV s1 /\ ExtI s s1 /\ flops_ s1 = flops_ s /\ write_ s1 = write_ s /\
+  tot_size (K ++ [p]) s1.
+Proof.
+  intros HS HC HV HG Hk T. cbn zeta. destruct (trk_size s) eqn:Ts.
+  - destruct (g_size_invV s p HS HC HV HG) as [(A & B & _ & C)|C]; [|congruence].
+    destruct (g_size n s p) as [sa sz]. cbn [fst snd] in *.
+    split; [apply (InvSV_struct sa); [unfold same_struct; repeat split; reflexivity|exact A]|].
+    split; [apply (ExtI_trans _ sa); [apply Ext_ExtI, B|unfold ExtI; repeat split; auto]|].
+    assert (B' := B). destruct B' as (_&_&_&_&_&B6&B7&B8&_).
+    split; [exact B7|]. split; [exact B8|].
+    pose proof (tot_size_Ext K s sa B T) as T'. unfold tot_size in *. intros _.
+    rewrite B6 in T'. destruct (T' Ts) as (Ta & Tb & Tc).
+    change (mc_ok (mc_add sz (sizes_mc sa)) /\
+            (forall z, cget0 z (fst (mc_add sz (sizes_mc sa))) = count_occ Z.eq_dec (map (csize sa) (K ++ [p])) z) /\
+            (forall q, In q (K ++ [p]) -> rd i_size sa q <> None)).
+    split; [apply mc_add_ok, Ta|]. split.
+    + intros z. rewrite mc_add_count. cbn [fst sizes_mc]. rewrite Tb, map_app. cbn [map]. rewrite count_occ_snoc.
+      assert (Ecf : csize sa p = sz) by (unfold csize; rewrite C; reflexivity). rewrite Ecf. reflexivity.
+    + intros q Hq. apply in_app_iff in Hq. destruct Hq as [Hq|[<-|[]]]; [apply Tc, Hq|rewrite C; discriminate].
+  - split; [exact HS|]. split; [unfold ExtI; repeat split; auto|]. repeat split; try reflexivity; try congruence; try discriminate.
+Qed.
+Lemma InvSV_children_add p l r s : InvSV s -> nget p (children s) = None ->
+  good_node l -> good_node r -> inrange n (l ++ r) -> Permutation p (l ++ r) ->
+  InvSV (set_children (nset p (l, r) (children s)) s).
+Proof.
+  intros (H1&H2&H3&H5) Hnone Gl Gr HR HP. destruct H1 as [Hnd Hc].
+  unfold InvSV. cbn [set_children children info sliced mult]. split; [|split; [exact H2|split; [|exact H5]]].
+  - split; [apply NoDup_nkeys_nset, Hnd|]. intros q l' r' Hq. destruct (node_eq_dec q p) as [->|Hn].
+    + rewrite nget_nset_same in Hq. injection Hq as <- <-. auto.
+    + rewrite nget_nset_other in Hq by exact Hn. apply Hc, Hq.
+  - intros nd' i Hi. destruct (H3 nd' i Hi) as [G Hv]. split; [exact G|]. intros HV. destruct (Hv HV) as (A&B&C&D). unfold node_inv. repeat split; auto.
+    + intros inv Hinv. destruct (B inv Hinv) as [Hl|(l' & r' & E & Hok)]; [left; exact Hl|right].
+      exists l', r'. split; [|exact Hok]. rewrite nget_nset_other; [exact E|]. intros ->. congruence.
+    + intros z Hz. destruct (D z Hz) as [Hl|(l' & r' & E & Hok)]; [left; exact Hl|right].
+      exists l', r'. split; [|exact Hok]. rewrite nget_nset_other; [exact E|]. intros ->. congruence.
+Qed.
+End VV.
+
 End Inv.
